@@ -2102,6 +2102,7 @@ impl RefEp {
     /// configuration that interoperates with rustrtc (cf. src/transports/dtls/interop_tests.rs)
     fn new(
         is_client: bool,
+        no_ems: bool,
         to_wire: mpsc::UnboundedSender<(Dir, Vec<u8>)>,
         from_wire: mpsc::UnboundedReceiver<Vec<u8>>,
     ) -> Result<RefEp, String> {
@@ -2117,7 +2118,7 @@ impl RefEp {
                 SrtpProtectionProfile::Srtp_Aead_Aes_128_Gcm,
                 SrtpProtectionProfile::Srtp_Aes128_Cm_Hmac_Sha1_80,
             ],
-            extended_master_secret: ExtendedMasterSecretType::Request,
+            extended_master_secret: if no_ems { ExtendedMasterSecretType::Disable } else { ExtendedMasterSecretType::Request },
             insecure_skip_verify: true,
             ..Default::default()
         };
@@ -2263,6 +2264,9 @@ struct RigCfg {
     force_renumber: bool,
     /// Some(k): a racing sender thread and k ordinary state subscribers on every rustrtc endpoint
     race: Option<usize>,
+    /// the reference endpoint does not use the extended_master_secret extension (RFC 7627 is optional:
+    /// a legal peer; the classic RFC 5246 master secret derivation is used then)
+    ref_no_ems: bool,
 }
 
 async fn build_rig(cfg: RigCfg) -> Result<Rig, String> {
@@ -2375,7 +2379,7 @@ async fn build_rig(cfg: RigCfg) -> Result<Rig, String> {
             }
             Ep::Rust(e)
         }
-        None => Ep::Ref(RefEp::new(false, tx_wire.clone(), ref_server_rx.take().ok_or("no rx")?)?),
+        None => Ep::Ref(RefEp::new(false, cfg.ref_no_ems, tx_wire.clone(), ref_server_rx.take().ok_or("no rx")?)?),
     };
     let client = match rust_client {
         Some(mut e) => {
@@ -2384,7 +2388,7 @@ async fn build_rig(cfg: RigCfg) -> Result<Rig, String> {
             }
             Ep::Rust(e)
         }
-        None => Ep::Ref(RefEp::new(true, tx_wire.clone(), ref_client_rx.take().ok_or("no rx")?)?),
+        None => Ep::Ref(RefEp::new(true, cfg.ref_no_ems, tx_wire.clone(), ref_client_rx.take().ok_or("no rx")?)?),
     };
     Ok(Rig { client, server, shared, tasks, t0, racers })
 }
@@ -2452,6 +2456,7 @@ async fn run_c11(sc: Value) -> Outcome {
         server_expect: None,
         force_renumber: sc["renumber"].as_bool().unwrap_or(false),
         race: if sc["race"].is_object() { Some(sc["race"]["subs"].as_u64().unwrap_or(0) as usize) } else { None },
+        ref_no_ems: sc["ref_ems"].as_str() == Some("disable"),
     })
     .await
     {
@@ -2660,6 +2665,9 @@ async fn run_c11(sc: Value) -> Outcome {
         ("retransmissions_delivered_refragmented_at_other_boundaries".to_string(), g.follow_applied as u64),
         (format!("pair:{pair}"), 1),
     ];
+    if sc["ref_ems"].as_str() == Some("disable") {
+        counts.push(("reference_peer_without_extended_master_secret".to_string(), 1));
+    }
     let mut sets = vec![];
     for f in &g.fired {
         let act = f.split('@').next().unwrap_or("");
@@ -2830,6 +2838,7 @@ async fn takeover_once(shape: &str, sig: &str, seed: u64, cutoff: Duration) -> R
         server_expect: None,
         force_renumber: false,
         race: None,
+        ref_no_ems: false,
     })
     .await?;
     let mut end;
@@ -3083,6 +3092,7 @@ async fn run_c02(sc: Value) -> Outcome {
         server_expect,
         force_renumber: false,
         race: None,
+        ref_no_ems: false,
     })
     .await
     {
@@ -3515,6 +3525,7 @@ async fn discover(pair: &str) -> Result<Vec<(Dir, String, u32)>, String> {
         server_expect: None,
         force_renumber: false,
         race: None,
+        ref_no_ems: false,
     })
     .await?;
     let t0 = Instant::now();
@@ -3647,7 +3658,24 @@ pub fn run(args: &Args) -> i32 {
                         "pair {pair}: clean handshake datagrams = {}",
                         d.iter().map(|(dir, c, _)| format!("{}:{}", dir.name(), c)).collect::<Vec<_>>().join(", ")
                     ));
-                    scenarios.extend(c11_scenarios(args.tier, &mut rng, pair, &d));
+                    let base = c11_scenarios(args.tier, &mut rng, pair, &d);
+                    if pair != "rr" {
+                        // the same reference peer without extended_master_secret: unfaulted, every
+                        // single drop / duplicate, and a sample of the rest
+                        let mut k = 0usize;
+                        for sc in base.iter() {
+                            let plan = sc["plan"].as_array().cloned().unwrap_or_default();
+                            let simple = plan.is_empty()
+                                || (plan.len() == 1 && matches!(plan[0]["act"].as_str(), Some("drop") | Some("dup")));
+                            k += 1;
+                            if sc["random"].is_null() && (simple || k % args.tier.pick(23, 5) == 0) {
+                                let mut s2 = sc.clone();
+                                s2["ref_ems"] = json!("disable");
+                                scenarios.push(s2);
+                            }
+                        }
+                    }
+                    scenarios.extend(base);
                 }
                 Err(e) => {
                     report.note(format!("pair {pair}: discovery failed, pair skipped: {e}"));
